@@ -236,7 +236,7 @@ public:
 
   //! Checks if a node is in the graph (already added)
   bool containsNode(const GraphNode n) const {
-    return n + nodeOffset < numNodes;
+    return n >= nodeOffset && n - nodeOffset < numNodes;
   }
 
   // Edge Handling
